@@ -446,7 +446,15 @@ impl<Upstream> ValidationContext<Upstream> {
         // A secure answer may actually be insecure if there is an insecure
         // CNAME or DNAME in the chain. Start by assume that secure is secure
         // and downgrade if required.
-        let maybe_secure = ValidationState::Secure;
+        //
+        // RFC 4035, Section 3.2.3: the answer is only authentic if all
+        // RRsets in the answer section are. An RRset that does not take part
+        // in answering the question (and is not secure) downgrades the
+        // result as well.
+        let mut maybe_secure = ValidationState::Secure;
+        for g in answers.iter() {
+            maybe_secure = map_maybe_secure(g.state(), maybe_secure);
+        }
 
         let (sname, state, ede) = do_cname_dname(
             qname,
